@@ -192,6 +192,8 @@ def replaceOp (env : Env) (a p r : Atoms) (atol : Rat) (h : Hints) (f : Rat) : E
     let p' := p.translate d
     let r' := r.translate d
     let found := env.search a p' atol h
+    -- `random.sample(range(n), k = round(f·n))` refuses a negative count (`f·n < −1/2`)
+    if f < 1 ∧ f * (found.length : Rat) < -1 / 2 then .error (.reject "sample") else
     let used := if f < 1 then (env.sample found.length f).filterMap (fun i => found[i]?) else found
     replaceCore a p' r' used false false
 
